@@ -53,9 +53,11 @@ CHECKS["C17"] = ("TLC explores SockLinesImpl (the _read_buffer chunk list, every
                  "lines; random streams with chunks of 1..256 bytes are judged the same way.",
                  "5 C17", "Trusted: the scripted socket file stands for the OS; SockLines.tla; TLC.")
 
-CHECKS["C14"] = ("TLC explores WritersImpl (registry, lazily opened and buffered path files, streams, custom writers; every "
-                 "interleaving of add/remove/write/flush/teardown) against the delivery/flush/teardown contract; behaviours are "
-                 "replayed on the real builder with real FileWriter objects and TLC compares the bytes read back after every action.",
+CHECKS["C14"] = ("TLC explores WritersImpl (registry, lazily opened and buffered path files, streams, files the user opened, custom "
+                 "writers; every interleaving of add/remove/write/flush/teardown; the code before fix F23 as a named deviation) "
+                 "against the delivery/flush/teardown contract; behaviours are replayed on the real builder with real FileWriter, "
+                 "ConsoleWriter and LogWriter objects and TLC compares the bytes read back after every action; ConfigWiring: all "
+                 "288 configurations enumerated by TLC and constructed for real.",
                  "5 C14", "Trusted: a second file handle shows what is durably in a file; the driver's own rendering of a statement; TLC.")
 
 CHECKS["C15"] = ("TLC explores SenderImpl (print thread, reader thread, firmware, both FIFOs, shared variables named as in "
@@ -64,14 +66,16 @@ CHECKS["C15"] = ("TLC explores SenderImpl (print thread, reader thread, firmware
                  "and reply hold-points, replayed on the real printcore threads over a scripted serial port, and TLC re-derives "
                  "the firmware's view from the logged transmissions (framing, xor checksum, numbering, resend service, completeness); "
                  "schedules include zero latency (reply handled before write() returns) and sequences of jobs on one connection; the job life cycle (pause, resume, cancel, "
-                 "';@pause', second job) is model-checked (SenderJobsImpl) and real executions are validated against it.",
+                 "';@pause', second job) is model-checked (SenderJobsImpl) and real executions are validated against it; beyond the property: "
+                 "the analyser's layer table (GcoderLayers), the callback interface (CallbacksTrace), streaming over TCP (SenderTcpTrace).",
                  "5 C15", "Trusted: the Marlin-style firmware written in SenderTrace.tla; the fake serial port as the OS boundary; "
                  "event order under one lock (replies logged when the host's reader takes them).")
 CHECKS["C16"] = ("TLC explores DirectWriteImpl (caller, sender thread, reader callback, start-up job) and shows synchrony/error "
                  "surfacing hold exactly outside the stale start-up acknowledgement (F12); the model's schedule choices are "
                  "enumerated and run on the real SerialWriter/PrintrunWriter/printcore threads; TLC judges order, synchrony, error "
                  "surfacing (also of alarms said while no statement is outstanding), termination of write() and disconnect(wait=True), "
-                 "connection loss in flight and while idle, zero-latency acknowledgements, on the logged events; 'the reading requested is available "
+                 "connection loss in flight and while idle, zero-latency acknowledgements, connect() on a connected writer, devices greeting with a Grbl "
+                 "banner (StartupImpl: the start-up print with and without line numbers), on the logged events; 'the reading requested is available "
                  "when write() returns' (C16_Reading) is judged by ReportsTrace on executions with several report lines before the ok.",
                  "5 C16", "Trusted: the scripted device (one acknowledgement per line, in order); a 20 ms window before each "
                  "acknowledgement; event order under one lock.")
